@@ -70,3 +70,12 @@ pub fn reset(max_depth: u32, max_loops: u64) {
 pub fn is_fuel_panic(msg: &str) -> bool {
     msg.contains(MARKER)
 }
+
+/// Called at the start of every instruction execution: in a simulated execution a scheduling
+/// point (so that lazily initialised or cached state inside instructions is exposed to
+/// interleavings at instruction granularity); draws on the loop budget as well.
+pub fn step() {
+    if crate::sync::sim_active() && !std::thread::panicking() {
+        shuttle::thread::yield_now();
+    }
+}
